@@ -5,6 +5,13 @@ import Qryn.Proofs.ProfUpsert
 namespace Qryn.Prof.Pprof
 open Qryn.Prof
 
+theorem sum_perm_int {l l' : List Int} (h : l.Perm l') : l.sum = l'.sum := by
+  induction h with
+  | nil => rfl
+  | cons a _ ih => simp only [List.sum_cons, ih]
+  | swap a b l => simp only [List.sum_cons]; omega
+  | trans _ _ ih₁ ih₂ => exact ih₁.trans ih₂
+
 def valTotal (ss : List PSample) (j : Nat) : Int := (ss.map (fun s => s.vals.getD j 0)).sum
 
 theorem valTotal_cons (s : PSample) (ss : List PSample) (j : Nat) : valTotal (s :: ss) j = s.vals.getD j 0 + valTotal ss j := by
